@@ -68,10 +68,19 @@ func genLargeCfg(t *rapid.T, kind string) PCfg {
 			c.ShrinkSize = eb / 4
 		}
 	}
-	c.BlockSize = rapid.SampledFrom([]int{0, 4096, 65535, 65536, 131072, 1000, 33_000}).Draw(t, "blk")
+	c.BlockSize = rapid.SampledFrom([]int{0, 4096, 65535, 65536, 131072, 1000, 33_000, 131073, 200_000, 262144, 1 << 20}).Draw(t, "blk")
+	if !sa && rapid.Bool().Draw(t, "bigBlocks") {
+		// blocks beyond the default 128 KiB need a buffer that holds them
+		c.BlockSize = rapid.SampledFrom([]int{131072, 131073, 200_000, 262144, 1 << 20, 0}).Draw(t, "blkBig")
+		c.BufferSize = rapid.SampledFrom([]int{0, 0, 300_000, 524288, 1 << 20}).Draw(t, "bufBig")
+		if c.BufferSize == 0 && c.WindowSize != 0 && c.WindowSize < 300_000 {
+			c.BufferSize = 400_000
+		}
+		c.ShrinkSize = rapid.SampledFrom([]int{0, 1024, 100_000}).Draw(t, "shrBig")
+	}
 	switch kind {
 	case "HP", "BHP", "BUP":
-		c.InputLen = rapid.SampledFrom([]int{0, 3, 4, 6, 8}).Draw(t, "inputLen")
+		c.InputLen = rapid.SampledFrom([]int{0, 3, 4, 6, 8, 5, 7}).Draw(t, "inputLen")
 		c.HashBits = rapid.SampledFrom([]int{0, 10, 14, 16}).Draw(t, "hashBits")
 		if kind == "BUP" {
 			if c.HashBits > 14 {
@@ -90,7 +99,7 @@ func genLargeCfg(t *rapid.T, kind string) PCfg {
 			c.WindowSize = 5
 		}
 	case "OSAP":
-		c.MinMatchLen = rapid.SampledFrom([]int{0, 2, 3, 5}).Draw(t, "minMatch")
+		c.MinMatchLen = rapid.SampledFrom([]int{0, 2, 3, 5, 5, 8}).Draw(t, "minMatch")
 		c.MaxMatchLen = rapid.SampledFrom([]int{0, 18, 273, 5}).Draw(t, "maxMatch")
 		if c.MaxMatchLen != 0 && c.MaxMatchLen < maxInt(c.MinMatchLen, 3) {
 			c.MaxMatchLen = maxInt(c.MinMatchLen, 3)
@@ -109,6 +118,30 @@ func largeStream(t *rapid.T, total int) []byte {
 		base = []byte{0}
 	}
 	seed := uint32(rapid.IntRange(0, 1<<30).Draw(t, "lcgSeed"))
+	if rapid.IntRange(0, 3).Draw(t, "incompressible") == 0 {
+		// a short compressible head, then pseudo-random bytes over all 256
+		// values: hundreds of kilobytes without a match for the parsers
+		// that hash 4 or more bytes, literal-only blocks, long tails behind
+		// the last match of a block
+		out := make([]byte, 0, total)
+		if seed&1 == 0 {
+			head := minInt(len(base), 16+int(seed)%48)
+			out = append(out, base[:head]...)
+			out = append(out, base[:head]...)
+		}
+		x := uint64(seed)<<16 | 1
+		for len(out) < total {
+			x += 0x9e3779b97f4a7c15
+			z := x
+			z = (z ^ (z >> 30)) * 0xbf58476d1ce4e5b9
+			z = (z ^ (z >> 27)) * 0x94d049bb133111eb
+			z ^= z >> 31
+			for k := 0; k < 8 && len(out) < total; k++ {
+				out = append(out, byte(z>>(8*k)))
+			}
+		}
+		return out[:total]
+	}
 	noise := rapid.IntRange(0, 3).Draw(t, "noiseEvery")
 	mut := rapid.IntRange(0, 3).Draw(t, "mutEvery")
 	out := make([]byte, 0, total)
@@ -134,7 +167,7 @@ func largeStream(t *rapid.T, total int) []byte {
 
 // genLargeHistory delivers a long stream through Write and ReadFrom (scripted
 // readers with large and small chunks), parsing and shrinking in between.
-func genLargeHistory(t *rapid.T, x *parserExec) {
+func genLargeHistory(t *rapid.T, x *parserExec, parseNil bool) {
 	cc := x.cc
 	sa := cc.Kind == "GSAP" || cc.Kind == "OSAP"
 	// rapid favours small values: count down from the largest size
@@ -147,7 +180,11 @@ func genLargeHistory(t *rapid.T, x *parserExec) {
 	for steps := 0; pos < len(stream) && steps < 60 && !x.dead; steps++ {
 		room := cc.BufferSize - x.buffered()
 		n := len(stream) - pos
-		switch weighted(t, "chunk", 3, 2, 2) {
+		wAll := 3
+		if cc.BlockSize > 131072 || cc.BlockSize == 131072 {
+			wAll = 9 // blocks of 128 KiB and more only occur with that much buffered
+		}
+		switch weighted(t, "chunk", wAll, 2, 2) {
 		case 0: // everything that fits and a little more
 			n = minInt(n, room+rapid.IntRange(0, 2).Draw(t, "over"))
 		case 1:
@@ -168,12 +205,25 @@ func genLargeHistory(t *rapid.T, x *parserExec) {
 		}
 		pos += len(x.fed) - before
 		k := 1 + rapid.IntRange(0, 6).Draw(t, "nparse")
-		if rapid.IntRange(0, 2).Draw(t, "drain") == 0 {
+		if rapid.IntRange(0, 2).Draw(t, "drain") > 0 {
 			k = 1 << 20
 		}
-		fl := genFlags(t, histOpts{ntl: 25})
-		for ; k > 0 && x.unparsed() > 0 && !x.dead; k-- {
-			x.step(POp{Op: "parse", Flags: fl})
+		fl := genFlags(t, histOpts{ntl: 35})
+		skipEvery := 0
+		if parseNil {
+			// 0: no skipping, 1: skip every block, 2/3: every 2nd/3rd
+			skipEvery = rapid.SampledFrom([]int{0, 1, 1, 2, 3}).Draw(t, "skipEvery")
+		}
+		for j := 1; k > 0 && x.unparsed() > 0 && !x.dead; k, j = k-1, j+1 {
+			if skipEvery > 0 && j%skipEvery == 0 {
+				x.step(POp{Op: "parsenil"})
+			} else {
+				x.step(POp{Op: "parse", Flags: fl})
+			}
+		}
+		if parseNil && x.unparsed() == 0 && rapid.Bool().Draw(t, "extraSkip") {
+			// on a drained buffer
+			x.step(POp{Op: "parsenil"})
 		}
 		if x.unparsed() == 0 || rapid.IntRange(0, 2).Draw(t, "shrink") == 0 {
 			x.step(POp{Op: "shrink"})
@@ -201,6 +251,12 @@ func largeProp(t *testing.T, prop string) {
 		kind := kind
 		t.Run(kind, func(t *testing.T) {
 			rapid.Check(t, func(t *rapid.T) {
+				if (kind == "GSAP" || kind == "OSAP") && rapid.IntRange(0, 2).Draw(t, "thin") > 0 {
+					// a large case of the suffix array parsers costs ten
+					// times one of the hash parsers: a third of the count
+					st.class("large:skipped-for-cost:" + kind)
+					return
+				}
 				cfg := genLargeCfg(t, kind)
 				x, err := newParserExec(cfg)
 				if err != nil {
@@ -209,7 +265,7 @@ func largeProp(t *testing.T, prop string) {
 				}
 				beginCase(prop, "large-"+kind, func() any { return x.Case() })
 				defer endCase() // also when rapid abandons the case half-way (fuzzing: input used up)
-				genLargeHistory(t, x)
+				genLargeHistory(t, x, prop == "C14" || prop == "C16")
 				endCase()
 				if msg, bad := x.first(prop); bad {
 					recordFailure(prop, "large-"+kind, x.Case(), msg)
@@ -245,6 +301,7 @@ func largeProp(t *testing.T, prop string) {
 func TestC01Large(t *testing.T) { largeProp(t, "C01") }
 func TestC02Large(t *testing.T) { largeProp(t, "C02") }
 func TestC03Large(t *testing.T) { largeProp(t, "C03") }
+func TestC14Large(t *testing.T) { largeProp(t, "C14") }
 func TestC15Large(t *testing.T) { largeProp(t, "C15") }
 func TestC16Large(t *testing.T) { largeProp(t, "C16") }
 func TestC19Large(t *testing.T) { largeProp(t, "C19") }
